@@ -28,9 +28,9 @@ theorem firstPass_cases (toc : Nat) (lens : List Nat) (hne : lens ≠ []) (tot0 
       · left; refine ⟨rfl, ?_⟩; simp [tot3, isVbr_two]; omega
       · right; exact ⟨_, _, rfl⟩
     · simp only [h, if_false]
-      split
-      · left; refine ⟨rfl, ?_⟩; simp [tot3, isVbr_two, h, vbrBody]; omega
-      · right; exact ⟨_, _, rfl⟩
+      by_cases hb : tot0 + ↑l0 + ↑l1 + 2 + (if 252 ≤ l0 then 1 else 0) > maxlen
+      · left; rw [if_pos hb]; refine ⟨rfl, ?_⟩; simp [tot3, isVbr_two, h, vbrBody]; omega
+      · right; rw [if_neg hb]; exact ⟨_, _, rfl⟩
   | _ :: _ :: _ :: _, _ => right; exact ⟨_, _, rfl⟩
 
 /-- With at least one extension the code-3 branch is always taken. -/
